@@ -93,7 +93,24 @@ pub fn canon(trace: &[Ev], raw_ids: &[Option<u64>]) -> Vec<Ev> {
             match &mut e.k {
                 EvK::Dl { raw_id, .. } => *raw_id = map_raw(*raw_id),
                 EvK::Spawned { raw, .. } => *raw = map_raw(*raw),
-                EvK::Log { msg, .. } => *msg = fix_str(msg),
+                EvK::Log { msg, .. } => {
+                    // free-form log text may contain wall-clock durations: digits are not part of the observation
+                    let fixed = fix_str(msg);
+                    let mut out = String::with_capacity(fixed.len());
+                    let mut in_num = false;
+                    for ch in fixed.chars() {
+                        if ch.is_ascii_digit() || (in_num && ch == '.') {
+                            if !in_num {
+                                out.push('N');
+                            }
+                            in_num = true;
+                        } else {
+                            in_num = false;
+                            out.push(ch);
+                        }
+                    }
+                    *msg = out;
+                }
                 EvK::Panic { msg, .. } => *msg = fix_str(msg),
                 EvK::OpEnd { res: Res::Ident { raw, .. }, .. } => *raw = map_raw(*raw),
                 EvK::Joined { summary, .. } => {
